@@ -4,5 +4,5 @@
 # changes break another property than the one their author aimed at (see their meta.json): for
 # those the other property's check is run as well, and that is the one expected to report.
 cd /verif
-( for d in seeded/*/; do n=$(basename $d); p=$(python3 -c "import json;print(json.load(open('$d/meta.json'))['property'])"); extra=""; case $n in C01-m3|C01-w3m2|C01-w4m1) extra="C06";; C11-w4m1|C11-w5m1|C11-w7m2) extra="C03";; C05-w4m1|C20-w7m3) extra="C08";; C05-w7m4) extra="C12";; C08-w7m4) extra="C20";; esac; echo "$n ${d}patch.diff $p $extra" | sed 's/ *$//'; done
+( for d in seeded/*/; do n=$(basename $d); p=$(python3 -c "import json;print(json.load(open('$d/meta.json'))['property'])"); extra=""; case $n in C01-m3|C01-w3m2|C01-w4m1|C01-w8m2) extra="C06";; C11-w4m1|C11-w5m1|C11-w7m2) extra="C03";; C05-w4m1|C20-w7m3) extra="C08";; C05-w7m4) extra="C12";; C08-w7m4) extra="C20";; esac; echo "$n ${d}patch.diff $p $extra" | sed 's/ *$//'; done
   for f in mutants/*.patch; do n=$(basename $f .patch); echo "own-$n $f ${n%%-*}"; done ) | xargs -P ${PAR:-2} -L 1 bash -c './tools/trymut.sh "$@"' _ 2>&1 | grep -E "CAUGHT|MISSED|TROUBLE|SUITE" | cut -c1-220
